@@ -750,4 +750,82 @@ func c19meaning(c *mon.Ctx) {
 		k.DistinctBytes([]byte(text))
 		k.Sample(text)
 	})
+
+	// comments and line numbers: a description with comment lines and
+	// trailing comments, followed by a line with an error.  The error names
+	// that line, and it is the same error as for the text in which every
+	// comment was replaced by nothing
+	c.Stratum("error-line", c.N(400, 12000), func(k *mon.Case) {
+		r := k.Rng
+		n := 6 + r.IntN(30)
+		ft := c19makeFont(r, n, c19both, false)
+		g := &c19gen{r: r, ft: ft, forms: map[string]bool{}}
+		comment := func() string {
+			return "#" + []string{" note", "", " GSUB1: A -> B", " -> , ; [ ] /", "# double", " dx+5 y-3", "\tafter a tab"}[r.IntN(7)]
+		}
+		var lines []string
+		gpos := k.Index%2 == 1
+		for i := 0; i < 1+r.IntN(4); i++ {
+			if r.IntN(3) == 0 {
+				lines = append(lines, comment())
+			}
+			lk := r.IntN(6)
+			if gpos {
+				lk = 6 + r.IntN(4)
+			}
+			t, _ := g.lookup(lk)
+			for _, ln := range strings.Split(t, "\n") {
+				if r.IntN(3) == 0 && !strings.Contains(ln, "\"") {
+					ln += " " + comment()
+				}
+				lines = append(lines, ln)
+			}
+			if r.IntN(4) == 0 {
+				lines = append(lines, "")
+			}
+		}
+		if r.IntN(2) == 0 {
+			lines = append(lines, comment())
+		}
+		broken := "GSUB1: " + g.atom(glyph.ID(1+r.IntN(n-1))) + " ->"
+		if gpos {
+			broken = "GPOS1: " + g.atom(glyph.ID(1+r.IntN(n-1))) + " -> dx"
+		}
+		lines = append(lines, broken)
+		want := len(lines)
+		if r.IntN(2) == 0 {
+			lines = append(lines, comment(), "")
+		}
+		text := strings.Join(lines, "\n") + "\n"
+		plainLines := make([]string, len(lines))
+		for i, ln := range lines {
+			if j := strings.Index(ln, "#"); j >= 0 && !strings.Contains(ln[:j], "\"") {
+				ln = ln[:j]
+			}
+			plainLines[i] = ln
+		}
+		plain := strings.Join(plainLines, "\n") + "\n"
+		_, err, ok := c19parse(k, ft.f, text, "error-line")
+		if !ok {
+			return
+		}
+		_, errPlain, ok := c19parse(k, ft.f, plain, "error-line")
+		if !ok {
+			return
+		}
+		k.Eval()
+		switch {
+		case err == nil || errPlain == nil:
+			k.Fail("mismatch", "c19:error-line:no-error", "a description whose line %d breaks off after the arrow is accepted (with comments: %v, without: %v)\n--- description ---\n%s", want, err, errPlain, text)
+		case err.Error() != errPlain.Error():
+			k.Fail("mismatch", "c19:error-line:comments-change-the-error", "comments change the error: %q with comments, %q with every comment removed\n--- description ---\n%s", err, errPlain, text)
+		case !strings.HasPrefix(err.Error(), fmt.Sprintf("%d:", want)) && !strings.HasPrefix(err.Error(), fmt.Sprintf("%d:", want+1)):
+			// (the end of a line is reported with the number of the line it begins)
+			k.Fail("mismatch", "c19:error-line:wrong-line", "the error is on line %d, reported: %q\n--- description ---\n%s", want, err, text)
+		default:
+			k.Class("error-line:checked")
+		}
+		k.DistinctBytes([]byte(text))
+	})
+	c.Require("error-line:checked")
 }
